@@ -635,6 +635,10 @@ class ScalarType(GraphQLLeafType, NamedType):
                     return self._parse_literal(node, variables or {})
                 return self.parse(node.value)
             except AttributeError:
+                if not hasattr(node, "value"):
+                    raise TypeError(
+                        "Invalid literal %s" % node.__class__.__name__
+                    )
                 return self.parse(node.value)
         except (ValueError, TypeError) as err:
             raise ScalarParsingError(str(err), [node]) from err
